@@ -125,3 +125,23 @@ func vLexLE(a, b weight) bool {
 //@   call append#2 assert selectors[0].specificity == specificity && selectors[0].pseudoType == "" && selectors[0].pageType == pageType
 //@   call append#3 assert selectors[0].specificity == specificity && selectors[0].pageType == pageType
 //@   unclaimed call-*-pre1 "token lists held in parsed rules contain no nil token: a data invariant of the parser's output that is not tracked through Compound values"
+
+// @page selector parsing never panics on any prelude (C07): invalid selectors give nil.
+// vPreludeTok: what the tokenizer guarantees of the prelude (assumed here): no nil token,
+// and inside a function block no identifier or number with an empty representation.
+//@ func parsePageSelectors
+//@   props C07
+//@   nopanic
+//@   modifies nothing
+//@   requires forall(j, 0, len(rule.Prelude), rule.Prelude[j] != nil)
+//@   requires forall(j, 0, len(rule.Prelude), typeIs(rule.Prelude[j], pa.FunctionBlock) ==> forall(k, 0, len(rule.Prelude[j].(pa.FunctionBlock).Arguments), rule.Prelude[j].(pa.FunctionBlock).Arguments[k] != nil && pa.VNthTok(rule.Prelude[j].(pa.FunctionBlock).Arguments[k])))
+//@   loop 1 invariant fresh(out) && forall(j, 0, len(tokens), tokens[j] != nil)
+//@   loop 1 invariant forall(j, 0, len(tokens), typeIs(tokens[j], pa.FunctionBlock) ==> forall(k, 0, len(tokens[j].(pa.FunctionBlock).Arguments), tokens[j].(pa.FunctionBlock).Arguments[k] != nil && pa.VNthTok(tokens[j].(pa.FunctionBlock).Arguments[k])))
+//@   loop 2 invariant fresh(out) && forall(j, 0, len(tokens), tokens[j] != nil)
+//@   loop 2 invariant forall(j, 0, len(tokens), typeIs(tokens[j], pa.FunctionBlock) ==> forall(k, 0, len(tokens[j].(pa.FunctionBlock).Arguments), tokens[j].(pa.FunctionBlock).Arguments[k] != nil && pa.VNthTok(tokens[j].(pa.FunctionBlock).Arguments[k])))
+//@   loop 2 decreases len(tokens)
+//@   loop 3 invariant rangeindex < len(firstToken.Arguments) && fresh(out)
+//@   loop 3 invariant forall(k, 0, len(nth), pa.VNthTok(nth[k])) && forall(k, 0, len(group), group[k] != nil)
+//@   loop 3 decreases len(firstToken.Arguments) - rangeindex
+//@   loop 4 invariant rangeindex < len(group) && fresh(out) && fresh(group_) && forall(k, 0, len(group), group[k] != nil)
+//@   loop 4 decreases len(group) - rangeindex
